@@ -86,14 +86,14 @@ func init() {
 	reg(&propCfg{ID: "C16", Test: "TestC16", Quick: tierCfg{4000, 6}, Thorough: tierCfg{250000, 16}, Fatal: true})
 	reg(&propCfg{ID: "C09", Test: "TestC09", Quick: tierCfg{12000, 8}, Thorough: tierCfg{600000, 16}})
 	reg(&propCfg{ID: "C04", Test: "TestC04", Quick: tierCfg{12000, 8}, Thorough: tierCfg{600000, 16}})
-	reg(&propCfg{ID: "C06", Test: "TestC06", Quick: tierCfg{3000, 4}, Thorough: tierCfg{100000, 16}})
-	reg(&propCfg{ID: "C03", Test: "TestC03", Quick: tierCfg{4000, 6}, Thorough: tierCfg{150000, 16}})
-	reg(&propCfg{ID: "C17", Test: "TestC17", Quick: tierCfg{800, 8}, Thorough: tierCfg{20000, 16}})
-	reg(&propCfg{ID: "C15", Test: "TestC15", Quick: tierCfg{10000, 8}, Thorough: tierCfg{500000, 16}})
+	reg(&propCfg{ID: "C06", Test: "TestC06", Quick: tierCfg{3000, 4}, Thorough: tierCfg{100000, 16}, Fuzz: []fuzzCfg{{"FuzzC06", 2 * time.Minute}}})
+	reg(&propCfg{ID: "C03", Test: "TestC03", Quick: tierCfg{4000, 6}, Thorough: tierCfg{150000, 16}, Fuzz: []fuzzCfg{{"FuzzC03", 2 * time.Minute}}})
+	reg(&propCfg{ID: "C17", Test: "TestC17", Quick: tierCfg{800, 8}, Thorough: tierCfg{20000, 16}, Fuzz: []fuzzCfg{{"FuzzC17", 2 * time.Minute}}})
+	reg(&propCfg{ID: "C15", Test: "TestC15", Quick: tierCfg{10000, 8}, Thorough: tierCfg{500000, 16}, Fuzz: []fuzzCfg{{"FuzzC15", 2 * time.Minute}}})
 	reg(&propCfg{ID: "C05", Test: "TestC05", Quick: tierCfg{1200, 8}, Thorough: tierCfg{40000, 16}, Fuzz: []fuzzCfg{{"FuzzC05", 2 * time.Minute}, {"FuzzBytes", 2 * time.Minute}}})
-	reg(&propCfg{ID: "C18", Test: "TestC18", Quick: tierCfg{6000, 8}, Thorough: tierCfg{400000, 16}})
-	reg(&propCfg{ID: "C07", Test: "TestC07", Quick: tierCfg{2500, 6}, Thorough: tierCfg{120000, 16}})
-	reg(&propCfg{ID: "C02", Test: "TestC02", Quick: tierCfg{5000, 8}, Thorough: tierCfg{250000, 16}})
+	reg(&propCfg{ID: "C18", Test: "TestC18", Quick: tierCfg{6000, 8}, Thorough: tierCfg{400000, 16}, Fuzz: []fuzzCfg{{"FuzzC18", 2 * time.Minute}}})
+	reg(&propCfg{ID: "C07", Test: "TestC07", Quick: tierCfg{2500, 6}, Thorough: tierCfg{120000, 16}, Fuzz: []fuzzCfg{{"FuzzC07", 2 * time.Minute}}})
+	reg(&propCfg{ID: "C02", Test: "TestC02", Quick: tierCfg{5000, 8}, Thorough: tierCfg{250000, 16}, Fuzz: []fuzzCfg{{"FuzzC02", 2 * time.Minute}}})
 	reg(&propCfg{ID: "C08", Test: "TestC08", Quick: tierCfg{8000, 8}, Thorough: tierCfg{500000, 16}})
 	reg(&propCfg{ID: "C01", Test: "TestC01", Quick: tierCfg{8000, 8}, Thorough: tierCfg{300000, 16}, Fuzz: []fuzzCfg{{"FuzzC01", 3 * time.Minute}}})
 	reg(&propCfg{ID: "C12", Test: "TestC12", Quick: tierCfg{15000, 8}, Thorough: tierCfg{600000, 16}})
@@ -510,7 +510,7 @@ func run(p *propCfg, work, tier string, seed int64) int {
 	// Native fuzz campaigns (thorough tier only): bounded by wall-clock, all cores.
 	if tier == "thorough" {
 		for _, fz := range p.Fuzz {
-			v, inc, execs := runFuzz(p, fz, work, seed, hooks)
+			v, inc, execs := runFuzz(p, fz, work, seed, hooks, openKeys)
 			violations = append(violations, v...)
 			if inc != "" && inconcl == "" {
 				inconcl = inc
@@ -584,7 +584,7 @@ func run(p *propCfg, work, tier string, seed int64) int {
 			} else if r.partial.Cases < int64(tc.Checks) {
 				inconcl = fmt.Sprintf("shard-%d-ran-%d-of-%d-cases", r.shard, r.partial.Cases, tc.Checks)
 			}
-		case r.timedOut:
+		case r.timedOut && !fileNonEmpty(r.failFile):
 			inconcl = fmt.Sprintf("shard-%d-timeout", r.shard)
 			fmt.Fprintf(os.Stderr, "shard %d timed out; log tail:\n%s\n", r.shard, tail(r.log, 30))
 		default:
@@ -677,7 +677,7 @@ func run(p *propCfg, work, tier string, seed int64) int {
 }
 
 // runFuzz runs one native fuzz campaign with `go test -fuzz` in the harness module.
-func runFuzz(p *propCfg, fz fuzzCfg, work string, seed int64, hooks bool) (violations []string, inconclusive string, execs int64) {
+func runFuzz(p *propCfg, fz fuzzCfg, work string, seed int64, hooks bool, openKeys []string) (violations []string, inconclusive string, execs int64) {
 	fail := filepath.Join(work, "fuzzfail_"+fz.Target+".json")
 	journal := filepath.Join(work, "fuzzjournal_"+fz.Target+".json")
 	args := []string{"test", "-vet=off", "-run", "^$", "-fuzz", "^" + fz.Target + "$", "-fuzztime", fz.Dur.String(), "-parallel", "16"}
@@ -688,7 +688,9 @@ func runFuzz(p *propCfg, fz fuzzCfg, work string, seed int64, hooks bool) (viola
 	cmd := exec.Command("go", args...)
 	cmd.Dir = harnessDir
 	cmd.Env = append(baseEnv(), "VERIF_FAIL="+fail, "VERIF_JOURNAL="+journal, "VERIF_TIER=thorough",
-		"VERIF_HOOKS="+map[bool]string{true: "1", false: "0"}[hooks], "VERIF_REPO="+repoDir, "VERIF_DIR="+verifDir, "VERIF_KNOWN_OPEN=")
+		"VERIF_HOOKS="+map[bool]string{true: "1", false: "0"}[hooks], "VERIF_REPO="+repoDir, "VERIF_DIR="+verifDir,
+		// open known findings stay attributed inside the fuzz workers too (their 5 % slices are part of the property bodies)
+		"VERIF_KNOWN_OPEN="+strings.Join(openKeys, ","))
 	out, err := cmd.CombinedOutput()
 	for _, line := range strings.Split(string(out), "\n") {
 		if i := strings.Index(line, "execs: "); i >= 0 {
